@@ -30,6 +30,7 @@ FLAGS = [
     'reg_array_whole',  # whole-array / section operations inside the region
     'reg_lb',           # arrays with lower bounds /= 1 are used in the region
     'reg_dimvar',       # an array whose declared extent is a dummy variable is used in the region
+    'reg_dimvar_implicit',  # ... and that dummy variable need not be referenced by the region itself
     'reg_2d',           # a 2-D array is used in the region
     'reg_param',        # a local PARAMETER is used in the region
     'reg_modparam',     # an imported module PARAMETER is used in the region
@@ -41,6 +42,7 @@ FLAGS = [
     # internal procedures
     'int_host_read', 'int_host_write', 'int_host_array', 'int_host_dtype', 'int_host_param', 'int_host_dimvar',
     'int_host_loopvar',  # internal procedure reads the host's DO variable while being called inside that loop
+    'int_host_multiref',  # a host array may be referenced in several forms (a(1), a(i), a) by one internal procedure
     'int_fun',           # an internal function (referenced inside an expression)
     'int_multi',         # two internal procedures
     'int_calls_int',     # one internal procedure calls the other
@@ -67,6 +69,69 @@ def what_applies(spec):
     if ep == 'extract':
         return {'outline': False, 'extract': True}
     return {'outline': bool(o.get('outline_regions')), 'extract': bool(o.get('extract_internals'))}
+
+
+def designators_of(e, name, out):
+    """collect the distinct designator forms of variable ``name`` in statement / expression JSON"""
+    if isinstance(e, list):
+        if e and e[0] == 'd' and isinstance(e[1], list) and e[1] and isinstance(e[1][0], list):
+            if e[1][0][0] == name and e not in out:
+                out.append(e)
+            for part in e[1]:
+                for x in (part[1] or []):
+                    designators_of(x, name, out)
+            return out
+        for x in e:
+            designators_of(x, name, out)
+    elif isinstance(e, dict):
+        for x in e.values():
+            designators_of(x, name, out)
+    return out
+
+
+def rename_var(e, name, new, keep=()):
+    """copy of statement / expression JSON with designators of ``name`` re-based on ``new`` (not inside ``keep``)"""
+    if any(e is k for k in keep):
+        return e
+    if isinstance(e, list):
+        if e and e[0] == 'd' and isinstance(e[1], list) and e[1] and isinstance(e[1][0], list):
+            parts = [[p[0], None if p[1] is None else [rename_var(x, name, new, keep) for x in p[1]]] + list(p[2:])
+                     for p in e[1]]
+            if parts[0][0] == name:
+                parts[0][0] = new
+            return [e[0], parts] + [rename_var(x, name, new, keep) for x in e[2:]]
+        return [rename_var(x, name, new, keep) for x in e]
+    if isinstance(e, dict):
+        return {k: rename_var(v, name, new, keep) for k, v in e.items()}
+    return e
+
+
+def canonical_ref(name, v):
+    """the one form in which a host array is referenced when int_host_multiref is off"""
+    if v.get('declared_n'):
+        lo, hi = v['dims'][0]
+        return ['d', [[name, [['rng', lit(lo), lit(hi), None]]]]]
+    return var(name)
+
+
+def single_form(r, host, keep=()):
+    """
+    rewrite internal procedure ``r`` such that it references every host array in ONE form: the array is copied
+    into a local array at the start (reference in canonical form) and all other references go to the copy
+    """
+    done = []
+    for name, v in host.vars.items():
+        if not v.get('dims') or v.get('path'):
+            continue
+        forms = designators_of(r['body'], name, [])
+        if len(forms) <= 1:
+            continue
+        cp = 'hc_' + name
+        body = [s_ if any(s_ is k for k in keep) else rename_var(s_, name, cp, keep) for s_ in r['body']]
+        r['decls'] = list(r['decls']) + [decl(cp, v['type'], dims=[list(d) for d in v['dims']])]
+        r['body'] = [['assign', var(cp), canonical_ref(name, v)]] + body
+        done.append(name)
+    return done
 
 
 def build(spec):
@@ -175,6 +240,7 @@ def build(spec):
         else:
             r, sig = GI.make_sub(b, g, f'isub{k}', 4 + k, [], funs, host=host_for_int, internal=True)
             sig['marked'] = False
+            keep_stmts = []
             # extra host accesses: derived-type components, parameter, host loop variable
             res = [d for d in sig['dummies'] if d['role'] == 'res'][0]
             rt = res['type']
@@ -192,10 +258,16 @@ def build(spec):
                 extra.append(['assign', var(res['name']), ['b', '+', var(res['name']), conv(var('lp0'), 'int', rt)]])
                 b.use('int_host_param')
             if F('int_host_dimvar') and 'zn' in env.vars:
-                extra.append(['assign', ['d', [['zn', [lit(2)]]]], ['b', '+', ['d', [['zn', [lit(1)]]]], ['r', '0.25']]])
+                if F('int_host_multiref'):
+                    extra.append(['assign', ['d', [['zn', [lit(2)]]]], ['b', '+', ['d', [['zn', [lit(1)]]]], ['r', '0.25']]])
+                else:
+                    cz = canonical_ref('zn', env.vars['zn'])
+                    keep_stmts.append(['assign', cz, ['b', '+', cz, ['r', '0.25']]])
+                    extra.append(keep_stmts[-1])
                 sig['hwrite'] = sorted(set(sig['hwrite']) | {'zn'})
                 b.use('int_host_dimvar')
-            if F('int_host_loopvar') and k == 0:
+            if F('int_host_loopvar') and k == 0 and not F('clash_local'):
+                # (with clash_local the internal procedure declares its own lj* and would read an undefined local)
                 lvname = env.loopvars[-1]
                 extra.append(['assign', var(res['name']), ['b', '+', var(res['name']), conv(var(lvname), 'int', rt)]])
                 loopvar_read = lvname
@@ -225,6 +297,12 @@ def build(spec):
                 body = r['body']
                 pos = len(body) - (1 if body and body[-1] == ['return'] else 0)
                 r['body'] = body[:pos] + extra + body[pos:]
+            multi = [nm for nm, v in host_for_int.vars.items() if v.get('dims') and not v.get('path')
+                     and len(designators_of(r['body'], nm, [])) > 1]
+            if multi and F('int_host_multiref'):
+                b.use('int_host_multiref')
+            elif multi:
+                single_form(r, host_for_int, keep=keep_stmts)
             int_subs.append(sig)
         ints_r.append(r)
 
@@ -259,6 +337,9 @@ def build(spec):
         if not F('reg_loop'):
             gb.p['max_depth'] = 0
         saved_lv = list(env.loopvars)
+        hidden_zn = None
+        if 'zn' in env.vars and not F('reg_dimvar'):
+            hidden_zn = env.vars.pop('zn')     # the dummy-sized array is only visible to regions under reg_dimvar
         if loopvar_read:
             env.loopvars = [x for x in env.loopvars if x != loopvar_read]
         stmts = []
@@ -287,6 +368,11 @@ def build(spec):
         if F('reg_dimvar') and 'zn' in env.vars:
             stmts.append(['assign', ['d', [['zn', [lit(1)]]]], ['b', '+', ['d', [['zn', [lit(3)]]]], var('xr0')]])
             b.use('reg_dimvar')
+            if not F('reg_dimvar_implicit'):
+                # the region itself uses the extent variable (as in loki's own tests)
+                stmts.append(['assign', var('yi0'), ['b', '+', var('yi0'), var('n')]])
+            elif not mentions(stmts, {'n'}):
+                b.use('reg_dimvar_implicit')
         if F('reg_2d'):
             stmts.append(['assign', ['d', [['zm', [lit(2), lit(1)]]]], ['b', '+', ['d', [['zm', [lit(1), lit(2)]]]], var('yr0')]])
             b.use('reg_2d')
@@ -317,6 +403,8 @@ def build(spec):
             stmts.append(['assign', var('yi0'), ['b', '+', var('yi0'), var(lv)]])
         env.funcs = []
         env.loopvars = saved_lv
+        if hidden_zn is not None:
+            env.vars['zn'] = hidden_zn
         for nm in ('ld_ci', 'ld_cr', 'ld_ca'):
             env.vars.pop(nm, None)
         # pragma
